@@ -377,4 +377,9 @@ theorem formSpec_unique {F : Form} {r : Bytes} (wf : F.WF) (h : FormSpec F r) :
   rw [all₂_eq_map hrs (fun a _ b hb => fieldSpec_unique hb)]
   simp [renderForm, List.flatMap_def]
 
+/-- a stable sort of two elements -/
+theorem mergeSort_pair {α} (le : α → α → Bool) (a b : α) :
+    [a, b].mergeSort le = if le a b then [a, b] else [b, a] := by
+  simp [List.mergeSort, List.MergeSort.Internal.splitInTwo, List.merge]
+
 end XmppModel.Caps
